@@ -48,11 +48,12 @@ def build_fmt(bib, f, past=False):
         bib.writer.write(old, fmt)
         fmt.value_column = "auto"
         bib.writer.write(old, fmt)
-    fmt.indent = f["indent"]
-    fmt.value_column = "auto" if f["vc"] == -1 else f["vc"]
-    fmt.block_separator = f["sep"]
-    fmt.trailing_comma = f["tc"]
-    fmt.parsing_failed_comment = f["pfc"]["pre"] + ("{n}" + f["pfc"]["post"] if f["pfc"]["n"] else "")
+    # the attributes are independent: the order in which they are assigned does not matter (it varies with the format)
+    todo = [("indent", f["indent"]), ("value_column", "auto" if f["vc"] == -1 else f["vc"]), ("block_separator", f["sep"]),
+            ("trailing_comma", f["tc"]), ("parsing_failed_comment", f["pfc"]["pre"] + ("{n}" + f["pfc"]["post"] if f["pfc"]["n"] else ""))]
+    k = (len(f["indent"]) + (f["vc"] if f["vc"] > 0 else 0) + len(f["sep"])) % 5
+    for name, val in todo[k:] + todo[:k]:
+        setattr(fmt, name, val)
     return fmt
 
 
@@ -139,6 +140,14 @@ def build_lib(bib, blocks, past=False):
     for i, b in enumerate(blocks):
         _ = (lib.entries, lib.strings, lib.comments, lib.failed_blocks, lib.entries_dict, lib.strings_dict, lib.preambles)
         lib.replace(ph[i], b, fail_on_duplicate_key=False)
+    # ... and a helper entry that was re-keyed to the key of a held entry and then removed: the library's key index may
+    # now be missing that entry, its blocks are what they are (the statement is about the blocks)
+    ents = [b for b in blocks if isinstance(b, M.Entry)]
+    if ents and len(blocks) % 2:
+        helper = M.Entry("misc", "helper-key-zz", [M.Field("averyveryverylonghelperfieldkey", "v")])
+        lib.add(helper)
+        helper.key = ents[-1].key
+        lib.remove(helper)
     return lib
 
 
